@@ -21,7 +21,7 @@ RULE = (
     "lines drawn from a token list rich in EOF/EOF1/EOF2.. (also padded, quoted, as heredoc openers), "
     "$VAR, $(..), backticks, backslashes, quotes, '#!' in the middle, blank/indented/tab-led lines and "
     "trailing whitespace, plus random lines over a small tricky alphabet; with or without a leading "
-    "'#!/bin/cat' shebang; eof_prefix in {EOF,E,END}; wrapper run by sh or bash. Oracle: "
+    "'#!/bin/cat' shebang; eof_prefix in {EOF,E,END}; wrapper run by sh or bash (non-ASCII texts always by bash). Oracle: "
     "prepare_command(c) == dedent(c).strip() when that starts with '#!', else DEFAULT_SHELL + newline + "
     "it; get_command_eof never equals a line of the text; executing get_wrapped_command(text) with a "
     "#!/bin/cat interpreter (given, or passed as default_shell) prints text + newline byte for byte and "
@@ -522,8 +522,8 @@ def run_case(ctx: Ctx, case: dict) -> None:
 
 
 def check(ctx: Ctx) -> None:
-    ctx.given(text_cases, lambda c: run_case(ctx, c), ctx.n(200, 9600))
-    ctx.given(staging_cases, lambda c: run_case(ctx, c), ctx.n(25, 640))
+    ctx.given(text_cases, lambda c: run_case(ctx, c), ctx.n(300, 6400))
+    ctx.given(staging_cases, lambda c: run_case(ctx, c), ctx.n(40, 320))
 
 
 def replay(ctx: Ctx, case: dict) -> None:
